@@ -7,6 +7,7 @@ import (
 	"path/filepath"
 	"sort"
 	"strings"
+	"sync"
 
 	"github.com/cloudwego/thriftgo/generator"
 	"github.com/cloudwego/thriftgo/generator/backend"
@@ -38,8 +39,15 @@ type C19Work struct {
 	// WarmSame: the same Generator persisted the same response before (fault plan applies there too);
 	// then somebody else overwrote or truncated some of the files (Clobber: job indexes); the observed
 	// call must write every file again
-	WarmSame bool  `json:"warm_same,omitempty"`
-	Clobber  []int `json:"clobber,omitempty"`
+	WarmSame bool `json:"warm_same,omitempty"`
+	// SameObjects: the observed call is handed the very response object the earlier call was handed (a host
+	// that retries Persist(res) after repairing what made it fail)
+	SameObjects bool `json:"same_objects,omitempty"`
+	// Rival: that many files are persisted at the same time by ANOTHER caller of the process (its own
+	// Generator, a backend without post-processor), into the directories of this call's first files; only in
+	// worlds without any injected fault.  Both calls must succeed and every file of both must hold its own content.
+	Rival   int   `json:"rival,omitempty"`
+	Clobber []int `json:"clobber,omitempty"`
 }
 
 type c19Driver struct{}
@@ -131,6 +139,7 @@ func (c19Driver) Gen(seed uint64, tier string) *simrt.Spec {
 	}
 	if n > 0 && r.Chance(1, 8) {
 		w.WarmSame = true
+		w.SameObjects = r.Chance(1, 2)
 		for k := 0; k < 1+r.Intn(3); k++ {
 			w.Clobber = append(w.Clobber, r.Intn(n))
 		}
@@ -175,6 +184,9 @@ func (c19Driver) Gen(seed uint64, tier string) *simrt.Spec {
 				sp.Files["/work/"+w.Jobs[i].Name] = []byte(strings.Repeat("stale content ", 40))
 			}
 		}
+	}
+	if failMode < 2 && n > 0 && len(sp.FSFaults) == 0 && sp.DiskCap == 0 && w.GlobalWd == "" && w.OtherFirst == "" && !w.WarmSame && r.Chance(1, 4) {
+		w.Rival = 1 + r.Intn(4)
 	}
 	sp.Driver, _ = json.Marshal(w)
 	return sp
@@ -329,6 +341,9 @@ func (c19Driver) Run(spec *simrt.Spec, agg *Agg, keep bool) *Outcome {
 	specK.KeepLog = true
 	w := simrt.NewWorld(&specK)
 	var perr error
+	rivalFiles := map[string]string{}
+	var rivalErr error
+	rivalTask, rivalDone := "", false
 	returned := false
 	retStep := -1
 	var stateSeq []string
@@ -366,8 +381,10 @@ func (c19Driver) Run(spec *simrt.Spec, agg *Agg, keep bool) *Outcome {
 			}
 			simrt.Boundary("observed-call")
 		}
+		var earlier *plugin.Response
 		if work.WarmSame {
-			_ = g.Persist(be.response())
+			earlier = be.response()
+			_ = g.Persist(earlier)
 			for _, ci := range work.Clobber {
 				if ci >= 0 && ci < len(expPath) && expPath[ci] != "" {
 					if _, err := simrt.Stat(expPath[ci]); err == nil {
@@ -381,10 +398,40 @@ func (c19Driver) Run(spec *simrt.Spec, agg *Agg, keep bool) *Outcome {
 		// Persist is handed the entries directly (Generate above only installs the
 		// post-processor and the logger), so the response is exactly the job list
 		pres := be.response()
+		if work.SameObjects && earlier != nil {
+			pres = earlier
+		}
+		var rwg sync.WaitGroup
+		if work.Rival > 0 {
+			rresp := plugin.NewResponse()
+			for k := 0; k < work.Rival; k++ {
+				dir := ""
+				if k < len(work.Jobs) {
+					dir = filepath.Dir(work.Jobs[k].Name)
+				}
+				name := filepath.Join(dir, fmt.Sprintf("rival%d.txt", k))
+				rivalFiles[c19Resolve(cwd, work.GlobalWd, name)] = fmt.Sprintf("<rival file %d>%s", k, strings.Repeat("r", 40*k+7))
+				nm := name
+				rresp.Contents = append(rresp.Contents, &plugin.Generated{Name: &nm, Content: rivalFiles[c19Resolve(cwd, work.GlobalWd, name)]})
+			}
+			simrt.WGAdd(&rwg, 1)
+			simrt.Go("c19-rival", func() {
+				defer simrt.WGDone(&rwg)
+				rivalTask = simrt.CurTask()
+				g2 := new(generator.Generator)
+				_ = g2.RegisterBackend(c19Other{})
+				_ = g2.Generate(&generator.Arguments{Out: &generator.LangSpec{Language: "other"}, Req: &plugin.Request{Language: "other", OutputPath: "."}, Log: backend.DummyLogFunc()})
+				rivalErr = g2.Persist(rresp)
+				rivalDone = true
+			})
+		}
 		simrt.Log("persist.call", "")
 		perr = g.Persist(pres)
 		simrt.Log("persist.return", fmt.Sprint(perr != nil))
 		returned = true
+		if work.Rival > 0 {
+			simrt.WGWait(&rwg)
+		}
 	})
 	dir_utils.SetGlobalwd("")
 	agg.merge(res)
@@ -412,6 +459,19 @@ func (c19Driver) Run(spec *simrt.Spec, agg *Agg, keep bool) *Outcome {
 		}
 	}
 
+	// what the other caller of the process did is not this call's doing: its file-system accesses are
+	// judged on their own (below), not by the clauses about this call
+	fslog := res.FSLog
+	if work.Rival > 0 {
+		fslog = nil
+		for _, a := range res.FSLog {
+			if rivalTask != "" && (a.Task == rivalTask || strings.HasPrefix(a.Task, rivalTask+".")) {
+				continue
+			}
+			fslog = append(fslog, a)
+		}
+	}
+
 	// clause 3: no deadlock / livelock
 	if res.ExitHow == "deadlock" || res.ExitHow == "budget" {
 		return fail("deadlock", "%s: %s", res.ExitHow, res.Verdict)
@@ -431,7 +491,7 @@ func (c19Driver) Run(spec *simrt.Spec, agg *Agg, keep bool) *Outcome {
 	// what failed, according to the disk and the post-processor
 	stepFailed := be.ppFails > 0
 	var failedOps []string
-	for _, a := range res.FSLog {
+	for _, a := range fslog {
 		if a.Err != "" && (a.Op == "mkdirall" || a.Op == "mkdir" || a.Op == "open-w" || a.Op == "write" || a.Op == "close-w") {
 			if strings.Contains(a.Err, "file exists") {
 				continue
@@ -472,9 +532,30 @@ func (c19Driver) Run(spec *simrt.Spec, agg *Agg, keep bool) *Outcome {
 		return fail("spurious-error", "nothing was injected (no failing post-process, no disk fault, no blocking file), yet a step failed (%v) and Persist returned %v", failedOps, perr)
 	}
 
+	// the other caller: nothing was injected, so its call succeeds too and its files hold their own content
+	if work.Rival > 0 {
+		agg.Count("probe.another-caller-persisting-at-the-same-time", 1)
+		if !rivalDone {
+			return fail("rival-call-disturbed", "the other caller's Persist did not return")
+		}
+		if rivalErr != nil {
+			return fail("rival-call-disturbed", "nothing was injected, yet the Persist call another caller of the process made at the same time (own Generator, other file names, same directories) failed: %v", rivalErr)
+		}
+		var rps []string
+		for p := range rivalFiles {
+			rps = append(rps, p)
+		}
+		sort.Strings(rps)
+		for _, p := range rps {
+			if got, ok := res.Disk[p]; !ok || string(got) != rivalFiles[p] {
+				return fail("rival-call-disturbed", "the other caller's Persist returned nil but %s holds %q, want %q", p, clip(string(got)), clip(rivalFiles[p]))
+			}
+		}
+	}
+
 	// clause 4: nothing in flight at return, nothing started afterwards
 	if retStep >= 0 {
-		for _, a := range res.FSLog {
+		for _, a := range fslog {
 			if a.Seq > retStep && (a.Op == "mkdirall" || a.Op == "mkdir" || a.Op == "open-w" || a.Op == "write" || a.Op == "close-w") {
 				return fail("in-flight-at-return", "Persist returned at event %d but task %s did %s %s at event %d", retStep, a.Task, a.Op, a.Path, a.Seq)
 			}
@@ -491,7 +572,7 @@ func (c19Driver) Run(spec *simrt.Spec, agg *Agg, keep bool) *Outcome {
 
 	// clause 5: each path opened for writing at most once; own content only
 	opens := map[string]int{}
-	for _, a := range res.FSLog {
+	for _, a := range fslog {
 		if a.Op == "open-w" && a.Err == "" {
 			opens[a.Path]++
 		}
@@ -568,6 +649,9 @@ func (c19Driver) Run(spec *simrt.Spec, agg *Agg, keep bool) *Outcome {
 		}
 		sort.Strings(diskPaths)
 		for _, p := range diskPaths {
+			if _, isRival := rivalFiles[p]; isRival {
+				continue
+			}
 			if _, ok := be.byPath[p]; !ok && !pre[p] {
 				return fail("foreign-path", "unexpected file %s", p)
 			}
